@@ -12,7 +12,9 @@ SPEC = hdr_spec(
                  "(C01_chain_linked_submissions); the recorded work is the cumulative block work from genesis, strictly increasing (C01_work_is_cumulative), and no "
                  "header held by any tracked branch carries more work than the reported tip (C01_tip_dominates_submissions). For histories that START from a Load of any consistent "
                  "storage image (C01_after_load_submissions: pruned root, side branches in any index order, unlinkable files) the tip stays maximal and the best chain linked down to the "
-                 "lowest height kept in memory, by the order-of-acceptance invariant of Proofs/LoadSound + ForestStep. Not yet theorems: the same across "
+                 "lowest height kept in memory, by the order-of-acceptance invariant of Proofs/LoadSound + ForestStep; C01_forest_history_clean / C01_from_genesis_any_length / "
+                 "C01_after_load_any_length extend both statements to histories of ANY length, automatic cleans included, under the only condition that no automatic clean runs "
+                 "while a reorganisation is pending (then Clean consolidates, which is not proved). Not yet theorems: the same across "
                  "Clean/Save/marking in the middle of a history (checked by correspondence + monitor on every generated history), arrival-order independence (exercised).")
 
 META = dict(
